@@ -1031,7 +1031,7 @@ def adversarial_payloads(ctx, r):
             return ENTRY[entry][1](cls, b)
 
         def judge(got):
-            return '=' if same_bits(kind, m, got) else '!' + f'{type(got).__name__} with {len(got.variables)} variables instead of {len(m.variables)}'
+            return '=' if same_bits(kind, m, got) else '!' + (f'{type(got).__name__} with {len(got.variables)} variables instead of {len(m.variables)}' if len(got.variables) != len(m.variables) else f'{type(got).__name__} whose biases are not the written ones (the model spelled by the payload)')
         full = F.sweep_prefixes(load, judge, data, ks=[len(data)])[len(data)]
         if full != '=':
             ctx.fail('property', f'{cls.__name__}.to_file/from_file', f'{kind}: {icls}', f'the complete file does not load back: {full}',
